@@ -331,10 +331,15 @@ def b_type(interp: Any, args: List[Any], kwargs: Dict[str, Any]) -> Any:
         if isinstance(v, (Fraction, SV)):
             return TypeTok("float")
         raise OutOfReach(f"type() of {type(v).__name__}")
-    h = interp.builtins.get("__type3__")
-    if h is not None:
-        return h.fn(interp, args, kwargs)
-    raise OutOfReach("3-argument type()")
+    name, bases, ns = args
+    if not isinstance(name, str) or not isinstance(ns, dict):
+        raise OutOfReach("3-argument type() with symbolic name")
+    from .interp import ClassVal
+
+    mod = next((b.module for b in bases if isinstance(b, ClassVal)), None)
+    cv = ClassVal(name, list(bases), mod, name)
+    cv.attrs.update(ns)
+    return cv
 
 
 def b_zip(interp: Any, args: List[Any], kwargs: Dict[str, Any]) -> Any:
@@ -488,6 +493,8 @@ def get_attribute(interp: Any, obj: Any, name: str) -> Any:
                         return r
         raise PyRaise("AttributeError", f"{obj!r} has no attribute {name}")
     if isinstance(obj, (ClassVal, ExtClass)):
+        if name == "__new__" and not any(isinstance(c, ExtClass) and "__new__" in c.methods for c in obj.mro()):
+            return Builtin("object.__new__", lambda it, a, k: ObjVal(a[0]))
         if name == "__name__":
             return obj.name
         if name == "__qualname__":
